@@ -1000,6 +1000,8 @@ class Executor:
                     return self.module_const(state, c.module, c.name + "." + attr, ex)
             if (a.name + "." + attr) in models.BUILTINS or (a.name + "." + attr) in self.reg.externals:
                 return VFunc("builtin", a.name + "." + attr)
+            if (a.name + "." + attr) in getattr(self.reg, "class_consts", {}):
+                return self.const(self.reg.class_consts[a.name + "." + attr])     # declared constant of an external class
             raise Unsupported("class attribute %s.%s" % (a.name, attr))
         if isinstance(a, (VBytes, VStr, VInt, VTuple, VReal)):
             return VFunc("builtin", a.kind + "." + attr, self_val=a)
